@@ -182,7 +182,7 @@ LIST_PAIRS = [(0, 2, 2, 'pop_front vs try_remove(second)'), (1, 2, 2, 'try_remov
   (7, 1, 2, 'push_front vs try_remove(first)'), (3, 0, 1, 'push_back vs pop_front'), (6, 3, 1, 'drain_into vs push_back'), (1, 5, 3, 'try_remove(first) vs try_remove(third)'),
   (2, 5, 3, 'try_remove(second) vs try_remove(third): adjacent'), (0, 3, 0, 'pop_front vs push_back on an empty list')]
 LIST_QUICK = {(0, 2, 2), (0, 1, 2), (0, 0, 1), (7, 1, 2), (3, 0, 1), (0, 3, 0)}
-PROPS['C15']['harnesses'] += [H('list_%d_%d_n%d' % (a, b, n), 'C15_list.cpp', ['h_t0', 'h_t1'], 36, tier=('quick' if (a, b, n) in LIST_QUICK else 'thorough'), timeout=(3000 if (a, b, n) == (4, 2, 3) else 1500), opts=dict(params=[a, b, n], max_visits=40, feas_seq=1, feas_at=3), desc='atomic_intrusive_list (v2 mutex waiter queue), %d initial nodes: %s' % (n, d)) for a, b, n, d in LIST_PAIRS]
+PROPS['C15']['harnesses'] += [H('list_%d_%d_n%d' % (a, b, n), 'C15_list.cpp', ['h_t0', 'h_t1'], 36, tier=('quick' if (a, b, n) in LIST_QUICK else 'deep' if (a, b, n) == (4, 2, 3) else 'thorough'), timeout=(3000 if (a, b, n) == (4, 2, 3) else 1500), opts=dict(params=[a, b, n], max_visits=40, feas_seq=1, feas_at=3), desc='atomic_intrusive_list (v2 mutex waiter queue), %d initial nodes: %s' % (n, d)) for a, b, n, d in LIST_PAIRS]
 LATCH_PAIRS = [(0, 1, 0, 0, 'wait start vs set'), (0, 1, 1, 0, 'wait start vs set, one waiter queued'), (2, 1, 1, 0, 'stop of the queued waiter vs set'), (2, 1, 2, 0, 'stop of the older waiter vs set, two queued'),
   (5, 6, 2, 0, 'stop of the newer waiter vs set+ready, two queued'), (0, 3, 0, 1, 'wait start vs reset on a set event'), (1, 3, 1, 0, 'set vs reset, one waiter queued'), (0, 4, 0, 0, 'two wait starts'),
   (0, 2, 1, 0, 'wait start vs stop of the queued waiter'), (2, 5, 2, 0, 'two stops of adjacent waiters'), (1, 1, 1, 0, 'two concurrent set() calls, one waiter')]
@@ -202,6 +202,8 @@ EPOLL14 = [EP('remote_sched_at%d_%d' % (k1, k2), [4, k1, 6, k2, 0, 0, 0], 'two s
 EPOLL14 += [EP('read_then_write_at%d' % k, [7, 0, 8, k, 0, 0, 0, 0], 'async read on an empty pipe started remotely; async write of 2 symbolic bytes started at system call #%d' % k) for k in (0, 1, 2, 3, 4, 5)] + \
   [EP('read_cancel_at%d' % k, [7, 0, 9, k, 12, k + 2, 0, 0], 'async read parked on an empty pipe; remote stop request at system call #%d; a byte arrives later' % k) for k in (1, 2, 3, 4, 5)] + \
   [EP('write_cancel_at%d' % k, [8, 0, 10, k, 11, k + 2, 0, 4], 'async write parked on a full pipe; remote stop request at system call #%d; the pipe is drained later' % k) for k in (1, 2, 3, 4, 5)] + \
+  [EP('read_cancel_at%d_reuse' % k, [7, 0, 9, k, 14, k + 1, 0, 0], 'async read cancelled at system call #%d, then a second read on the same descriptor and two bytes written by another process' % k) for k in (1, 2, 3, 4)] + \
+  [EP('read_then_read_pre%d' % n, [7, 0, 13, 1, 0, 0, 0, n], 'two consecutive reads on one descriptor with %d bytes in the pipe' % n) for n in (3, 4)] + \
   [EP('read_partial_pre%d' % n, [7, 0, 0, 0, 0, 0, 0, n], 'async read with %d byte(s) already in the pipe' % n) for n in (1, 2, 3)] + \
   [EP('write_partial_pre%d' % n, [8, 0, 0, 0, 0, 0, 0, n], 'async write of 2 bytes into a pipe with %d of 4 bytes used' % n) for n in (0, 2, 3)]
 PROPS['C14']['harnesses'] += EPOLL14
